@@ -116,7 +116,8 @@ fn main() {
 
 
 class Prog:
-    def __init__(self, name, text, harnesses, meta=None, expect_compile=True):
+    def __init__(self, name, text, harnesses, meta=None, expect_compile=True, ncheck=False):
+        self.ncheck = ncheck
         self.name, self.text, self.harnesses, self.meta = name, text, harnesses, meta or {}
         self.expect_compile = expect_compile
         # the derive_ex item comes first in the module text: its line range (after the 4 header lines written by ECrate)
@@ -133,6 +134,7 @@ class ECrate:
         self.excluded = {}
         self.kani_wall = 0.0
         self.check_wall = 0.0
+        self.harness_timeout = 240
 
     def add(self, prog):
         self.progs.append(prog)
@@ -169,6 +171,8 @@ unexpected_cfgs = { level = "allow", check-cfg = ['cfg(kani)'] }
         open(os.path.join(self.dir, "src", "lib.rs"), "w").write(
             "#![allow(unused)]\npub mod support;\n%s\npub fn replay(p: &str, h: &str, b: &[u8]) -> (bool, String) {\n    match p {\n%s\n        _ => (true, String::from(\"unknown program\")),\n    }\n}\n" % (mods, disp))
         open(os.path.join(self.dir, "src", "bin", "replay.rs"), "w").write(REPLAY_MAIN)
+        nc = "\n".join('    for m in ecrate::%s::ncheck() { println!("%s\\t{}", m.replace("\\n", " ")); }' % (p.name, p.name) for p in self.progs if p.ncheck and p.name not in self.excluded)
+        open(os.path.join(self.dir, "src", "bin", "ncheck.rs"), "w").write("fn main() {\n%s\n    println!(\"NCHECK-DONE\");\n}\n" % nc)
 
     def triage(self):
         """cargo check with the plain toolchain; programs that rustc rejects are excluded and returned with their diagnostics."""
@@ -228,7 +232,7 @@ unexpected_cfgs = { level = "allow", check-cfg = ['cfg(kani)'] }
     def run_kani(self, timeout=3000, jobs=NCPU):
         """returns {harness_fullname: {"ok": bool, "failed_checks": str}}"""
         t0 = time.time()
-        p = self._kani(["-j", str(jobs)], timeout)
+        p = self._kani(["-j", str(jobs), "-Z", "unstable-options", "--harness-timeout", str(self.harness_timeout)], timeout)
         self.kani_wall += time.time() - t0
         out = p.stdout + "\n" + p.stderr
         m = re.search(r"Complete - (\d+) successfully verified harnesses, (\d+) failures, (\d+) total", out)
@@ -262,7 +266,8 @@ unexpected_cfgs = { level = "allow", check-cfg = ['cfg(kani)'] }
         for h in expected:
             txt = "\n".join(blocks.get(h, []))
             fc = re.findall(r"Failed Checks: (.*)", txt)
-            res[h] = {"ok": h not in failed, "failed_checks": fc, "unwind": "unwinding assertion" in txt}
+            res[h] = {"ok": h not in failed, "failed_checks": fc, "unwind": "unwinding assertion" in txt,
+                      "timeout": ("imed out" in txt or "TIMEOUT" in txt or "out of memory" in txt.lower() or (h in failed and "VERIFICATION:- FAILED" not in txt))}
         if len(failed) != fail_n:
             raise Undecided("kani summary inconsistent")
         return res
@@ -280,6 +285,19 @@ unexpected_cfgs = { level = "allow", check-cfg = ['cfg(kani)'] }
             vals.append(bs)
         return vals
 
+    def run_native(self, timeout=1200):
+        """run every program's ncheck() natively (plain cargo, real proc-macro); returns {prog: [messages]}"""
+        p = sh(["cargo", "run", "--offline", "-q", "--bin", "ncheck"], cwd=self.dir,
+               env=env_with(CARGO_TARGET_DIR=os.path.join(BUILD, "e", "target-check")), timeout=timeout)
+        if "NCHECK-DONE" not in p.stdout:
+            raise Undecided("native check binary of %s failed: %s" % (self.name, (p.stdout + p.stderr)[-2000:]))
+        out = {}
+        for l in p.stdout.split("\n"):
+            if "\t" in l:
+                a, b = l.split("\t", 1)
+                out.setdefault(a, []).append(b)
+        return out
+
     def native(self, prog, harness, byts, timeout=600):
         p = sh(["cargo", "run", "--offline", "-q", "--bin", "replay", "--", prog, harness] + [str(b) for b in byts], cwd=self.dir,
                env=env_with(CARGO_TARGET_DIR=os.path.join(BUILD, "e", "target-check")), timeout=timeout)
@@ -296,6 +314,9 @@ def decide(ctx, crate, results, keyfn, describe):
     for h, r in sorted(results.items()):
         if r["ok"]:
             continue
+        if r.get("timeout"):
+            ctx.undecided.append("harness %s: CBMC timeout/limit (no verdict)" % h)
+            continue
         n_fail += 1
         pname, hname = h.split("::proofs::")
         prog = byname[pname]
@@ -304,7 +325,7 @@ def decide(ctx, crate, results, keyfn, describe):
             ctx.violation(key, "Kani obligation failed: %s" % r["failed_checks"], {"layer": "E", "program": prog.text, "harness": hname, "meta": prog.meta}, no_input=True)
             continue
         rep = {"layer": "E", "obligation": "%s::%s" % (pname, hname), "failed_checks": r["failed_checks"], "program": prog.text,
-               "harness": hname, "meta": prog.meta, "describe": describe(prog)}
+               "harness": hname, "meta": prog.meta, "describe": describe(prog), "extra_support": crate.extra_support}
         # 1. native search on the real expansion (fast); 2. otherwise Kani's concrete playback values, replayed natively
         out = crate.native(pname, hname, [])
         m = re.search(r"(REPRODUCED|FOUND) input=\[([0-9, ]*)\] (.*)", out, re.S)
@@ -337,7 +358,7 @@ def replay_file(path):
     if rep.get("layer") != "E" or "program" not in rep:
         print(json.dumps(rep, indent=1)[:4000])
         return 1
-    c = ECrate(rep["property"], "replay")
+    c = ECrate(rep["property"], "replay", rep.get("extra_support", ""))
     c.add(Prog("p_replay", rep["program"], [rep["harness"]], rep.get("meta")))
     c.write()
     rej = c.triage()
